@@ -356,7 +356,7 @@ func main() {
 	for _, spec := range [][3]string{
 		{"internal/api/api.go", "api", "EnqueueSQE"}, {"internal/api/api.go", "api", "DequeueSQE"}, {"internal/api/api.go", "api", "EnqueueCQE"},
 		{"internal/api/api.go", "api", "Shutdown"}, {"internal/api/api.go", "api", "Done"},
-		{"internal/kernel/system/system.go", "System", "Done"}, {"internal/kernel/system/system.go", "System", "Shutdown"},
+		{"internal/kernel/system/system.go", "System", "Loop"}, {"internal/kernel/system/system.go", "System", "Done"}, {"internal/kernel/system/system.go", "System", "Shutdown"},
 		{"internal/aio/aio.go", "aio", "EnqueueCQE"}, {"internal/aio/aio.go", "aio", "DequeueCQE"}, {"internal/aio/aio.go", "aio", "Dispatch"}, {"internal/aio/aio.go", "aio", "Flush"},
 	} {
 		f := parse(filepath.Join(repo, spec[0]))
